@@ -33,6 +33,16 @@ class CtlProperty:
         return res.violations
 
 
+def is_wc_unit(unit: Any) -> bool:
+    """Units of the work-chain family are ((items, how, reassign[, shape]), script); program units are (program, script)
+    with program a tuple of (kind, actions, terminator) steps."""
+    try:
+        spec = unit[0]
+        return len(spec) >= 3 and spec[1] in ('return', 'call', 'both') and isinstance(spec[2], bool)
+    except (TypeError, IndexError):
+        return False
+
+
 def ops_signature(w: ctl.World) -> List[str]:
     return [f"{r['origin'].split(':')[0]}:{r['op']}" for r in w.calls if r['origin'] not in ('probe', 'closing', 'post')]
 
